@@ -28,7 +28,8 @@ def full_rank_data(draw, n, F):
     Q, _ = np.linalg.qr(r.normal(0, 1, (F, F)))
     sv = 10.0 ** r.uniform(-1.5, 1.5, F) * 10.0 ** gen.integer(draw, -2, 2)
     A = Q * sv[None, :]
-    b = sv.max() * gen.choice(draw, [0.0, 1.0, -20.0]) * np.ones(F)
+    # also far from the origin (a one-pass E[xx'] - mm' covariance would cancel there; centred data do not)
+    b = sv.max() * gen.choice(draw, [0.0, 1.0, -20.0, 1e4, -1e7]) * np.ones(F)
     return Z @ A.T + b, r
 
 
@@ -164,11 +165,14 @@ def c_wccn(ctx, case):
     lower_pos(ctx, W, "WCCN")
     Y = np.array([np.asarray(v, float) for v in w.transform(X)])
     ctx.check(Y.shape == X.shape, "transform shape %s" % (Y.shape,), "shape")
-    tol = 1e5 * EPS * cond + 1e-10
+    # rounding of the differences x - class mean: eps * |x| relative to the smallest within-class spread
+    sd_min = float(np.sqrt(np.linalg.eigvalsh(S).min()))
+    far = float(np.abs(X).max()) / max(sd_min, 1e-300)
+    tol = 1e5 * EPS * cond + 1e-10 + 64 * EPS * far * np.sqrt(cond)
     got = within_scatter(Y, cls) / K
     ctx.stat_max("scatter error / (eps*cond)", np.abs(got - np.eye(X.shape[1])).max() / (EPS * cond))
     ctx.close(got, np.eye(X.shape[1]), "within-class scatter of transformed data / K", rtol=0, atol=tol)
-    wt = 1e4 * EPS * cond * np.abs(W).max() + 1e-300
+    wt = (1e4 * EPS * cond + 64 * EPS * far * np.sqrt(cond)) * np.abs(W).max() + 1e-300
     # any relabelling
     y2 = np.array([case["other_names"][c] for c in cls], dtype=np.int64)
     W2 = np.asarray(WCCN(pinv=case["pinv"]).fit(X, y2).weights, float)
